@@ -197,6 +197,15 @@ func (s *Sched) Step(id string) Report {
 	}
 	p.parked = false
 	p.point = ""
+	// drop reports of earlier steps of this process that nobody consumed (a step
+	// that ended in a watchdog time-out reports late)
+	kept := s.pending[:0]
+	for _, r := range s.pending {
+		if r.Proc != id {
+			kept = append(kept, r)
+		}
+	}
+	s.pending = kept
 	s.mu.Unlock()
 	p.resume <- true
 	return s.Await(id)
